@@ -144,7 +144,13 @@ func genStructCall(r *detsim.Rand, types []int, overrides bool) Call {
 }
 
 func genAnyCall(r *detsim.Rand, types []int) Call {
-	switch r.Weighted([]int{55, 10, 3, 7, 3, 6, 2, 4, 3, 4, 3, 4}) {
+	switch r.Weighted([]int{55, 10, 3, 7, 3, 6, 2, 4, 3, 4, 3, 4, 3, 3, 2}) {
+	case 12:
+		return Call{Entry: EEscape, Val: r.Intn(len(escapeInputs))}
+	case 13:
+		return Call{Entry: ETimeFmt, Val: r.Intn(len(timeFmtSeps)), Rule: r.Intn(5)}
+	case 14:
+		return Call{Entry: EParseKV, Val: r.Intn(len(parseKVInputs))}
 	case 0:
 		return genStructCall(r, types, true)
 	case 1:
